@@ -217,19 +217,16 @@ fn join_capture<'arena>(
         .expect("capture reader thread should not panic")
         .map_err(ProcessError::SpawnFailed)?;
 
-    if overflow.load(Ordering::Acquire) == stream_code(stream) {
-        return Err(ProcessError::OutputLimitExceeded(stream));
+    // A reader that hits the limit keeps only a prefix, and the flag records just the first
+    // stream that did. Any recorded overflow therefore fails the run before a (possibly
+    // truncated) buffer is validated.
+    let overflow_code = overflow.load(Ordering::Acquire);
+    if overflow_code != 0 {
+        return Err(ProcessError::OutputLimitExceeded(stream_from_code(overflow_code)));
     }
 
     let text = String::from_utf8(bytes).map_err(|_| ProcessError::InvalidUtf8(stream))?;
     Ok(Some(ArenaString::from_str(arena, &text)))
-}
-
-const fn stream_code(stream: ProcessStream) -> u8 {
-    match stream {
-        ProcessStream::Stdout => 1,
-        ProcessStream::Stderr => 2,
-    }
 }
 
 const fn stream_from_code(code: u8) -> ProcessStream {
